@@ -1,18 +1,19 @@
 // C56: mod_doh.RequestToDnsMsg (requestToMsgGet / requestToMsgPost / setClientSubnet) vs model Doh.v.
-// input : [method:B values:LB body:B limit:Z remote:B client:LB oracle]
+// input : [method:B values:LB body:B limit:Z remote:LB client:LB oracle fail:Z]
+//   fail = -1, or k: the body reader delivers body[:k] and then returns io.ErrUnexpectedEOF (short body vs Content-Length)
 //   values = values of the "dns" query parameter (after URL decoding); body = POST body;
 //   limit  = value of maxPostMsgLength for this case (0 = leave the package default, which must be 8192);
-//   remote/client = raw IP bytes of Request.RemoteAddr / Request.ClientAddr (client: 0 or 1 element);
+//   remote/client = raw IP bytes of Request.RemoteAddr / Request.ClientAddr (0 or 1 element each; 0 = nil);
 //   oracle = [[buf res] ...] table of the external miekg/dns codec at the buffers the code may parse:
 //            res = [] (Unpack fails) | [canon nExtra nOpt rcode] with canon = Pack(Unpack(buf)), rcode = Msg.Rcode.
 // output: Err 1 (rejected) | Err 2 (result does not pack) |
+//         [nExtra nOpt canon []] when RemoteAddr is nil (canon of the whole result) |
 //         [nExtra nOpt canonWithoutLastExtra last], last = [name rrtype udpsize ttl [[code family mask scope addr]...]] for an OPT RR
 package main
 
 import (
-	"bytes"
 	"encoding/base64"
-	"io/ioutil"
+	"io"
 	"net"
 	"net/url"
 
@@ -25,6 +26,39 @@ import (
 )
 
 var defaultLimit int64 = -1
+
+// bodyReader delivers data in small reads (size depends on the data length only) and ends with io.EOF or,
+// when failAt >= 0, with io.ErrUnexpectedEOF after failAt bytes.
+type bodyReader struct {
+	data   []byte
+	pos    int
+	chunk  int
+	failAt int
+}
+
+func (b *bodyReader) Read(p []byte) (int, error) {
+	end := len(b.data)
+	if b.failAt >= 0 {
+		end = b.failAt
+	}
+	if b.pos >= end {
+		if b.failAt >= 0 {
+			return 0, io.ErrUnexpectedEOF
+		}
+		return 0, io.EOF
+	}
+	n := b.chunk
+	if n > len(p) {
+		n = len(p)
+	}
+	if n > end-b.pos {
+		n = end - b.pos
+	}
+	copy(p, b.data[b.pos:b.pos+n])
+	b.pos += n
+	return n, nil
+}
+func (b *bodyReader) Close() error { return nil }
 
 func countOpt(m *dns.Msg) int {
 	n := 0
@@ -65,8 +99,9 @@ func impl(in hv.Val) hv.Val {
 	values := hv.AsList(top[1])
 	body := hv.AsBytes(top[2])
 	limit := hv.AsInt(top[3])
-	remote := hv.AsBytes(top[4])
+	remote := hv.AsList(top[4])
 	client := hv.AsList(top[5])
+	failAt := int(hv.AsInt(top[7]))
 
 	if defaultLimit < 0 {
 		defaultLimit = mod_doh.VerifSetMaxPostMsgLength(8192)
@@ -83,10 +118,12 @@ func impl(in hv.Val) hv.Val {
 		q.Add("dns", hv.AsStr(v))
 	}
 	hr := &bfe_http.Request{Method: method, URL: &url.URL{Scheme: "https", Host: "example.org", Path: "/dns-query", RawQuery: q.Encode()},
-		Header: bfe_http.Header{}, Body: ioutil.NopCloser(bytes.NewReader(body))}
+		Header: bfe_http.Header{}, Body: &bodyReader{data: body, chunk: 1 + (len(body)*7+3)%61, failAt: failAt}}
 	req := new(bfe_basic.Request)
 	req.HttpRequest = hr
-	req.RemoteAddr = &net.TCPAddr{IP: net.IP(append([]byte(nil), remote...)), Port: 4000}
+	if len(remote) == 1 {
+		req.RemoteAddr = &net.TCPAddr{IP: net.IP(append([]byte(nil), hv.AsBytes(remote[0])...)), Port: 4000}
+	}
 	if len(client) == 1 {
 		req.ClientAddr = &net.TCPAddr{IP: net.IP(append([]byte(nil), hv.AsBytes(client[0])...)), Port: 5000}
 	}
@@ -104,6 +141,13 @@ func impl(in hv.Val) hv.Val {
 		return hv.Err(3)
 	}
 	ne := len(back.Extra)
+	if len(remote) == 0 { // nothing is appended without RemoteAddr: report the whole message
+		canon, err := back.Pack()
+		if err != nil {
+			return hv.Err(5)
+		}
+		return hv.L{hv.I(ne), hv.I(countOpt(back)), hv.B(canon), hv.L{}}
+	}
 	if ne == 0 {
 		return hv.Err(4)
 	}
@@ -237,9 +281,14 @@ func gen(r *hv.Rng, i int, tier string) (string, hv.Val) {
 		wire = r.Bytes(r.Intn(30))
 		dmg = "rand"
 	}
-	remote, rc := genIP(r)
-	var client hv.L
+	remoteB, rc := genIP(r)
+	remote := hv.L{hv.B(remoteB)}
+	client := hv.L{}
 	ipclass := rc
+	if r.Chance(1, 20) {
+		remote = hv.L{}
+		ipclass = "noremote"
+	}
 	if r.Chance(1, 3) {
 		c, cc := genIP(r)
 		client = hv.L{hv.B(c)}
@@ -347,7 +396,36 @@ func gen(r *hv.Rng, i int, tier string) (string, hv.Val) {
 		}
 	}
 	class += "/" + ipclass
-	return class, hv.L{hv.S(method), values, hv.B(body), hv.I(limit), hv.B(remote), client, oracle}
+	// body reader failures (short body vs Content-Length): before / at / after the limit, at 0 and at the end
+	fail := -1
+	if len(body) > 0 && r.Chance(1, 6) {
+		lim := limit
+		if lim == 0 {
+			lim = 8192
+		}
+		switch r.Intn(6) {
+		case 0:
+			fail = 0
+		case 1:
+			fail = len(body)
+		case 2:
+			fail = lim - 1
+		case 3:
+			fail = lim
+		case 4:
+			fail = lim + 1
+		default:
+			fail = r.Intn(len(body) + 1)
+		}
+		if fail < 0 {
+			fail = 0
+		}
+		if fail > len(body) {
+			fail = len(body)
+		}
+		class += "/readerr"
+	}
+	return class, hv.L{hv.S(method), values, hv.B(body), hv.I(limit), remote, client, oracle, hv.I(fail)}
 }
 
 func main() {
